@@ -120,3 +120,21 @@ CHECKS["C14"] = dict(
                      "TestC14Monitor.deadline_cases.complete-timeout": 10, "TestC14Monitor.disabled_cases": 20, "TestC14Monitor.stopped_channels": 200}),
     assumptions=["virtual time (testing/synctest): timer expirations are exact; the monitor API double is the only observation point"],
 )
+
+CHECKS["C15"] = dict(
+    level="fault_enumeration",
+    rule=("C15Send: case index enumerates the stream-open failure pattern f in {0,1}^<=8 (by index), attempts 1..6 (or <1 = one attempt), back-off parameters, and a fault mode "
+          "(plain / context cancelled at a PRNG virtual instant / Write fails after n bytes / a stalled NewStream + cancel) over a mocknet of three hosts with a wrapping "
+          "host that records every NewStream call on the virtual clock. Oracles: calls <= attempts, exact count up to first success, success iff an allowed attempt opens, "
+          "prompt return and no attempt after cancel, reset + error on write failure, exactly one faithful delivery to the intended peer and none to the bystander. "
+          "C15Inbound: a raw stream carrying k in 0..4 well-formed messages (any of the 12 kinds, occasionally a 1-3 MiB voucher) followed by EOF / garbage / a non-message "
+          "CBOR item / a truncated message: handler calls == k, right handler, authenticated remote peer, faithful content; malformed tails are reported and reset. "
+          "distinct = (pattern length, attempts, mode, calls, outcome) resp. (k, tail kind, errors, reset)."),
+    parts=[
+        dict(test="TestC15Send", quick=320, thorough=30000, per_shard=32),
+        dict(test="TestC15Inbound", quick=96, thorough=6000, per_shard=10),
+    ],
+    floors=dict(any={"TestC15Send.successful_sends": 100, "TestC15Send.exhausted_sends": 40, "TestC15Send.cancelled_sends": 20, "TestC15Send.write_failures": 20,
+                     "TestC15Inbound.malformed_streams": 30, "TestC15Inbound.inbound_messages": 120}),
+    assumptions=["libp2p mocknet streams stand in for real transports; timing is virtual"],
+)
